@@ -61,10 +61,22 @@ func (rows *leveldbRows) ReplaceOrInsert(r *btpb.Row) {
 }
 
 func (rows *leveldbRows) Clear() {
-	if err := rows.db.Close(); err != nil {
+	// Delete every row in one atomic batch rather than closing the database and creating a new one: a scan that has
+	// given up the table lock while it streams rows out (or the GC pass between batches) still holds an iterator on
+	// this database; closing it under them made them panic ("leveldb/table: reader released") as soon as the table
+	// was large enough to have rows in table files. Such an iterator keeps reading its snapshot.
+	batch := new(leveldb.Batch)
+	it := rows.db.NewIterator(nil, nil)
+	for it.Next() {
+		batch.Delete(it.Key())
+	}
+	it.Release()
+	if err := it.Error(); err != nil {
 		panic(err)
 	}
-	rows.db = rows.newFunc(true)
+	if err := rows.db.Write(batch, nil); err != nil {
+		panic(err)
+	}
 }
 
 func (rows *leveldbRows) Close() {
